@@ -21,7 +21,7 @@ ASSUMPTIONS = [
 
 from xsdata.formats.dataclass.serializers import PycodeSerializer  # noqa: E402
 
-OPTS = M.Opts(cr=True, mixin_enums=True, unrepresentable=True)
+OPTS = M.Opts(cr=True, mixin_enums=True, unrepresentable=True, required_none=True)
 
 
 @st.composite
